@@ -31,8 +31,10 @@ OPS = ['C20']
 RULE = ('cases: pad of 2-D arrays (all source/target sizes 1..9, every grow/shrink/parity mix) and cubes (depth 1..3, non-square), '
         'subarray incl. windows outside the array, boundary/boundary_slice/slice_offset on sparse integer arrays with thresholds and '
         'pads, rebin (2-D, cubes, non-divisible factors), centroid, hex_ring 0..6, hex_segments (rings 1..3, gaps >= 0, drop lists '
-        'with duplicates and out-of-range numbers, both orientations), circle/rectangle/hexagon with dyadic parameters, shifts and '
-        'rotations, antialiased and binary; distinct = canonical (kind, shapes, parameters) signature; non-trivial = not the '
+        'with duplicates and out-of-range numbers, both orientations), util.window (shape / slice / both / neither / one element / cube), '
+        'circle/rectangle/hexagon/spider with dyadic parameters, shifts and rotations, antialiased and binary, incl. shapes much larger '
+        'than the array or centred far outside it; boundary data at physical scales 1e-18..1e12; half-turn-symmetric arrays for the '
+        'centroid; deeper tiers add arrays up to 3001x3 / 3x4097, int8/int16/uint8/int32/float32 data, a 61-segment aperture; distinct = canonical (kind, shapes, parameters) signature; non-trivial = not the '
         'same-shape/identity case')
 TRUSTED = ['NumPy slicing, reshape(...).sum, np.any/np.where, np.clip/np.minimum semantics as modelled by hand in Model/Geometry.lean',
            'libm sqrt/sin/cos agree with NumPy to 1e-9 (drawn shapes are compared with the model run at Float)']
